@@ -15,7 +15,7 @@ RULE = ("case 'sig' = (format out of dbc, dbf, sym, kcd, json, xls, arxml; for j
         "Motorola signals at any non-overlapping placement, standard and extended ids, simple multiplexing; one of its signals): the "
         "position number stored in the file (extracted by a mini-parser for dbc, dbf, sym, kcd, json), and start/width/byte order of "
         "the signal after reading the file back. case 'frame' = presence of the frame (identifier + format) after the round trip. "
-        "30 % of the extended frames are flagged J1939. Half of the matrices are built with the extended flag as the integer 1 (as the readers set it), signed signals name negative raw values in their value tables, identifier numbers occur in both formats, frames longer than 8 bytes in every format. 40 % of the matrices name one to three of their ECUs, 20 % one frame and 20 % one signal with a word that contains the text of a keyword, column heading, tag or attribute of one of the file formats (BRIDGE, VIDEO, Motor_ID, CycleCtrl, ValueSrv, BO_Gw, SG_1, Mux, Var, Type, Message, Producer, START_MSG ...); three matrices in ten have plain signals (factor 1, offset 0, no unit, mostly no value table, some shrunk to 1 bit flags, some with explicit limits 0..1 / 0..0) for which the writers omit optional elements; one matrix in twelve is written and read through a file path (dumpp/loadp, format taken from the extension) instead of a byte buffer. case 'bus' = a cluster of 1..3 buses for KCD/ARXML; in KCD the names of frames and signals are local to a bus in half of the clusters (the same names on every bus), and most clusters with several buses carry one or two routed frames: a frame of one bus (same identifier, format and name) also on another bus, as an equal copy, as the very same Frame object, or (KCD) with other signals and length. Non-trivial = distinct case with a Motorola signal or a signal wider than one bit.")
+        "30 % of the extended frames are flagged J1939. Half of the matrices are built with the extended flag as the integer 1 (as the readers set it), signed signals name negative raw values in their value tables, identifier numbers occur in both formats, frames longer than 8 bytes in every format. 40 % of the matrices name one to three of their ECUs, 20 % one frame and 20 % one signal with a word that contains the text of a keyword, column heading, tag or attribute of one of the file formats (BRIDGE, VIDEO, Motor_ID, CycleCtrl, ValueSrv, BO_Gw, SG_1, Mux, Var, Type, Message, Producer, START_MSG ...); three matrices in ten have plain signals (factor 1, offset 0, no unit, mostly no value table, some shrunk to 1 bit flags, some with explicit limits 0..1 / 0..0) for which the writers omit optional elements; one matrix in four has names of 33..64 characters - longer than a DBC symbol, so that the DBC writer cuts them and restores them from attribute statements - for a third, two thirds or all of its signals and frames and some of its ECUs, in a third of these matrices the long signal names of a frame are equal in their first 32 characters (..._Bank1 / ..._Bank2); one matrix in twelve is written and read through a file path (dumpp/loadp, format taken from the extension) instead of a byte buffer. case 'bus' = a cluster of 1..3 buses for KCD/ARXML; in KCD the names of frames and signals are local to a bus in half of the clusters (the same names on every bus), and most clusters with several buses carry one or two routed frames: a frame of one bus (same identifier, format and name) also on another bus, as an equal copy, as the very same Frame object, or (KCD) with other signals and length. Non-trivial = distinct case with a Motorola signal or a signal wider than one bit.")
 PARTIAL = ["only the field kernels (position and identifier numbers) carry theorems; file assembly, XML plumbing and reference "
            "resolution are tied by this correspondence check only",
            "multi-bus files (KCD/ARXML, 2..3 buses) are compared per bus on the layout normal form (case 'bus')",
@@ -41,6 +41,7 @@ def gen(rng, tier, shard, nshards, rich=False):
             wn = "3.2.3"          # the other AUTOSAR version the writer offers (default 4.1.0)
         desc = R.gen_case_matrix(rng, fmt, rich)
         plain_signals(rng, desc, fmt)
+        long_names(rng, desc, fmt)
         keyword_names(rng, desc, fmt, wn, rich)
         # the same round trip through a file path (dumpp / loadp pick the format by the extension) instead of a byte buffer
         via = "path" if rng.random() < 0.08 else "bytes"
@@ -109,6 +110,50 @@ def plain_signals(rng, desc, fmt):
                 s["receivers"] = []
 
 
+# Real networks spell their names out: a good part of them is longer than the 32 characters a DBC symbol may have (the DBC writer cuts
+# such a name and restores it from an attribute statement that refers to the frame by number, the other formats take it as it is).
+LONG_TAILS = ["EngineCoolantTemperatureSensorRawValue_Bank1", "TransmissionOutputShaftSpeedFiltered", "BatteryManagementSystemCellVoltageMinimum",
+              "AdaptiveCruiseControlTargetDistance_Status", "ExhaustGasRecirculationValvePositionActual", "x" * 36, "Steering_Wheel_Angle_Sensor_Calibration_State",
+              "HighVoltageInterlockLoopDiagnosticCounter_0123456789"]
+
+
+def long_name(rng, name, shared_head=None):
+    """`name` made longer than 32 characters (33..64 for the short generated names): the given name stays the head, so the first 32
+    characters still tell the names apart - or, with `shared_head` (a text of 32 characters or more), it becomes the tail behind that
+    head: ..._Bank1 / ..._Bank2, names that are equal in their first 32 characters"""
+    if shared_head:
+        return shared_head + "_" + name
+    tail = rng.choice(LONG_TAILS)
+    long = name + "_" + tail
+    while len(long) <= 32:
+        long += "_" + tail
+    return long[:max(rng.randint(33, 64), len(name) + 2)]
+
+
+def long_names(rng, desc, fmt):
+    """names longer than 32 characters (in place): in one matrix out of four a third, two thirds or all of the signals, frames and ECUs
+    carry a name of 33..64 characters; in a third of these matrices the long signal names of a frame differ only behind the 32nd character"""
+    if rng.random() >= 0.25:
+        return
+    p = rng.choice([0.3, 0.6, 1.0])
+    shared = rng.random() < 0.33
+    for f in desc["frames"]:
+        if rng.random() < p:
+            f["name"] = long_name(rng, f["name"])
+        head = rng.choice(LONG_TAILS)[:rng.randint(32, 40)] if shared else None
+        for s in f["signals"]:
+            if rng.random() < p:
+                s["name"] = long_name(rng, s["name"], head)
+    present = sorted(set(desc["ecus"]))
+    mp = {e: long_name(rng, e) for e in present if rng.random() < p / 2}
+    if mp:
+        desc["ecus"] = sorted(mp.get(e, e) for e in desc["ecus"])
+        for f in desc["frames"]:
+            f["transmitters"] = [mp.get(e, e) for e in f["transmitters"]]
+            for s in f["signals"]:
+                s["receivers"] = sorted(mp.get(e, e) for e in s["receivers"])
+
+
 def keyword_names(rng, desc, fmt, wn="lsb", rich=False):
     """names of ECUs, frames and signals that contain the text of a keyword of one of the formats (in place)"""
     if rng.random() < 0.4:
@@ -142,6 +187,7 @@ def gen_bus(rng):
     buses = []
     for name in ("BusA", "BusB", "BusC")[:rng.choice([1, 2, 2, 2, 3, 3, 3])]:
         d = R.gen_case_matrix(rng, fmt, False)
+        long_names(rng, d, fmt)
         keyword_names(rng, d, fmt)
         if prefix:
             for f in d["frames"]:
@@ -271,6 +317,11 @@ def observe(case):
     stored = r["stored"].get((c["fid"], c["ext"], c["sname"]))
     if stored is None and c["fmt"] == "sym" and is_mux:
         stored = r["stored"].get((c["fid"], c["ext"], "<mux>"))
+    if stored is None and c["fmt"] == "dbc" and len(c["sname"]) > 32:
+        # the SG_ line of a DBC file has the name cut to 32 characters (the whole name is in a BA_ statement); the signals of a
+        # frame whose names are equal up to there are numbered in their order
+        cut = [s["name"] for s in of["signals"] if s["name"][:32] == c["sname"][:32]]
+        stored = r["stored"].get((c["fid"], c["ext"], c["sname"][:32] + (str(cut.index(c["sname"])) if len(cut) > 1 else "")))
     return {"emit": stored if c.get("x") else None,
             "back": [gs["start"], gs["size"], gs["little"]] if gs else None,
             # the sign flag of a float signal carries no meaning and is not stored by DBF/KCD/SYM
@@ -296,6 +347,8 @@ def features(case, impl):
         yield "buses=%s/%d" % (c["fmt"], len(c["names"]))
         if not c.get("prefix", True):
             yield "buses:same-names-on-every-bus"
+        if any(len(s["name"]) > 32 or len(f["name"]) > 32 for _, d in c["buses"] for f in d["frames"] for s in f["signals"]):
+            yield "buses:long-names/" + c["fmt"]
         for r in c.get("routed", []):
             yield "buses:routed-frame=%s/%s" % (c["fmt"], r[4])
         return
@@ -309,8 +362,14 @@ def features(case, impl):
         yield "matrix:keyword-in-frame-name"
     if any(s["name"] in NAME_WORDS for f in fr for s in f["signals"]):
         yield "matrix:keyword-in-signal-name"
-    if any(f["id"] == g["id"] and f["ext"] != g["ext"] for f in fr for g in fr):
+    twin = any(f["id"] == g["id"] and f["ext"] != g["ext"] for f in fr for g in fr)
+    if twin:
         yield "matrix:same-number-in-both-formats"
+    for what, names in (("signal", [s["name"] for f in fr for s in f["signals"]]), ("frame", [f["name"] for f in fr]), ("ecu", c["m"]["ecus"])):
+        if any(len(n) > 32 for n in names):
+            yield "matrix:long-%s-name/%s%s" % (what, c["fmt"], "+same-number-in-both-formats" if twin else "")
+    if any(len(s["name"]) > 32 and len(t["name"]) > 32 and s["name"] != t["name"] and s["name"][:32] == t["name"][:32] for f in fr for s in f["signals"] for t in f["signals"]):
+        yield "matrix:long-signal-names-equal-in-32-characters/" + c["fmt"]
     if any(f["size"] > 8 for f in fr):
         yield "matrix:fd-length"
     if case["op"] == "sig":
